@@ -106,7 +106,9 @@ CHECKS["C07"] = dict(
 CHECKS["C08"] = dict(
     text="Proved on the model of Row.traverse (both branches) and Table._yield_odf_rows: the k-th yielded cell is addressed x = k and is the k-th cell of "
     "the expanded row, rows come once per repetition, and NO yielded cell keeps a repeat count wherever a range starts (incl. the last position of a "
-    "repeated run); get_value addresses the asked cell for every integer coordinate and answers the empty cell outside the populated area. "
+    "repeated run); Table.traverse(start, end) - behind get_rows / get_values / iter_values / get_cells with coordinates - yields exactly the rows of the expanded table "
+    "inside the bounds, each addressed by its y, in increasing order, without repeat count, also when the range begins strictly inside a repeated run "
+    "(table_traverse_range_sound, table_traverse_range_complete; 4 ranges per table go to the driver); get_value addresses the asked cell for every integer coordinate and answers the empty cell outside the populated area. "
     "Detachment: proved on the ownership heap (OdfModel/Heap: the table is owner 0, every returned object an owner of its own born with fresh objects) - "
     "no history of modifications of returned objects changes an object of the table or of another returned object, a read followed by such modifications "
     "leaves the table as the read alone leaves it, the table changes only by steps applied to the table (returned_copies_detached, returned_copies_independent, "
